@@ -272,7 +272,7 @@ func resolveTypeName(tn typeName) (Type, error) {
 	}
 	if tn.array {
 		if strings.HasPrefix(tn.name, "serial") {
-			return 0, errf(codeUnsupported, "array of serial is not implemented")
+			return 0, unsupported("array of serial not implemented")
 		}
 		return arrayOf[t], nil
 	}
